@@ -4,7 +4,8 @@ package main
 //   - for every exported method of *Mempool in mempool/mempool.go: does it (transitively, through methods of the same
 //     receiver) mutate goodTxs / utxoTxs / specGoodTxs / futureTxs / futureTxsCount, does it read them, and does its own
 //     body take proxyMtx (`<recv>.proxyMtx.Lock()` as a statement, released by defer or by an explicit Unlock);
-//   - LinkApplication.CommitBlock calls mempool.Update between mempool.Lock() and mempool.Unlock().
+//   - LinkApplication.CommitBlock calls mempool.Update between mempool.Lock() and mempool.Unlock();
+//   - the cache methods (*Mempool).GetTxFromCache calls (must be CheckAndGet: only basic-checked entries are hits).
 
 import (
 	"fmt"
@@ -187,5 +188,30 @@ func c15Facts(e *env) (string, error) {
 	})
 	bracketed := nUpd == 1 && lockPos != 0 && unlockPos != 0 && lockPos < updPos && updPos < unlockPos
 	fmt.Fprintf(&sb, "/-- `LinkApplication.CommitBlock` (app/app.go) calls `mempool.Update` exactly once, after `mempool.Lock()` and before `mempool.Unlock()` -/\ndef commitBlockBracketsUpdate : Bool := %v\n", bracketed)
+	// GetTxFromCache: which cache methods does it call
+	var gfd *ast.FuncDecl
+	for _, d := range f.Decls {
+		if fd, ok := d.(*ast.FuncDecl); ok && fd.Recv != nil && fd.Name.Name == "GetTxFromCache" && fd.Body != nil {
+			gfd = fd
+		}
+	}
+	if gfd == nil {
+		return "", fmt.Errorf("anchor function not found: mempool/mempool.go: (*Mempool).GetTxFromCache")
+	}
+	var calls []string
+	ast.Inspect(gfd.Body, func(n ast.Node) bool {
+		c, ok := n.(*ast.CallExpr)
+		if !ok {
+			return true
+		}
+		if sel, ok := c.Fun.(*ast.SelectorExpr); ok {
+			if s2, ok := sel.X.(*ast.SelectorExpr); ok && s2.Sel.Name == "cache" {
+				calls = append(calls, fmt.Sprintf("%q", sel.Sel.Name))
+			}
+		}
+		return true
+	})
+	sort.Strings(calls)
+	fmt.Fprintf(&sb, "\n/-- the methods of the dedup cache `(*Mempool).GetTxFromCache` calls (mempool/mempool.go) -/\ndef getTxFromCacheCalls : List String := [%s]\n", strings.Join(calls, ", "))
 	return sb.String(), nil
 }
